@@ -139,8 +139,13 @@ def gen_case(g):
         else:
             kwargs[names[0]] = {"k": "py", "v": 2}
             error = "double"
-    return {"poly": poly, "args": args, "kwargs": kwargs, "labels": labels, "error": error,
+    case = {"poly": poly, "args": args, "kwargs": kwargs, "labels": labels, "error": error,
             "spelling": rng.choice(["call", "call", "numpoly.call"])}
+    if error is None and rng.random() < 0.15:
+        case["call_options"] = rng.choice([{"retain_names": False}, {"retain_names": False},
+                                           {"retain_coefficients": True},
+                                           {"retain_names": False, "retain_coefficients": True}])
+    return case
 
 
 def value_model(spec):
@@ -220,9 +225,16 @@ def expected_value(pmodel, names, params):
     return out
 
 
-def do_call(poly, args, kwargs, spelling):
+def do_call(poly, args, kwargs, spelling, options=None):
     import numpoly
 
+    if options:
+        defaults = numpoly.get_options()
+        try:
+            with numpoly.global_options(**options):
+                return do_call(poly, args, kwargs, spelling)
+        finally:
+            numpoly.set_options(**defaults)
     if spelling == "numpoly.call":
         return numpoly.call(poly, tuple(args), kwargs)
     return poly(*args, **kwargs)
@@ -290,7 +302,13 @@ def run_case(case, ctx):
     full_numeric = all(spec is not None and spec["k"] != "poly" for spec in param_specs.values())
     ctx.evaluated(sig, nontrivial)
     ctx.count("full_numeric" if full_numeric else "substitution")
-    got, err = O.call_guard(do_call, poly, args, kwargs, case["spelling"])
+    call_options = case.get("call_options")
+    if call_options:
+        # evaluation itself is not an "ordering-based" function: the retain settings in force at
+        # call time change neither which names a polynomial has nor its values
+        ctx.count("calls_under_options")
+        facts["call_options"] = ",".join(f"{k}={v}" for k, v in sorted(call_options.items()))
+    got, err = O.call_guard(do_call, poly, args, kwargs, case["spelling"], call_options)
     if err is not None:
         O.report_exception(ctx, facts, err, case, what="call")
         return
@@ -305,7 +323,7 @@ def run_case(case, ctx):
         ctx.violation(facts, f"call: {problem[1]}\n  poly={M.describe(pmodel, 300)}\n  "
                              f"params={ {n: M.describe(params[n], 120) for n in names} }", case)
         return
-    if not full_numeric and isinstance(got, numpoly.ndpoly):
+    if not full_numeric and isinstance(got, numpoly.ndpoly) and not call_options:
         missing = M.all_names(expected) - set(got.names)
         if missing:
             facts["failure"] = "names"
@@ -391,6 +409,26 @@ def run_case(case, ctx):
                               rider="carrier:" + label)
                     ctx.violation(f2, f"same integers carried as {label} give a different value: "
                                       f"{cprob[1]}", case)
+    if full_numeric and pspec["kind"] in ("int", "float") and not pspec.get("dtype"):
+        # the polynomial is changed in place (every coefficient doubled through the raw view)
+        # after it was evaluated: the next evaluation sees the new coefficients
+        try:
+            raw = poly.values
+            if raw.flags.writeable:
+                for key in raw.dtype.names:
+                    raw[key] *= 2
+                ctx.count("evaluated_after_update")
+                again = do_call(poly, args, kwargs, case["spelling"])
+                doubled = M.m_map(lambda e: e * M.MP.const(2), expected)
+                uprob = O.mismatch(again, doubled, rtol=rtol, atol=2 * atol)
+                ctx.evaluated(("after_update",) + sig, nontrivial)
+                if uprob is not None:
+                    ctx.violation(dict(facts, rider="after_update", failure="stale:" + uprob[0]),
+                                  f"after doubling the coefficients in place the same call gives "
+                                  f"{uprob[1]}", case)
+        except Exception as uerr:  # pylint: disable=broad-except
+            O.report_exception(ctx, dict(facts, rider="after_update"), uerr, case,
+                               what="evaluation after an in-place update")
 
 
 def run(spec, ctx):
